@@ -689,7 +689,7 @@ def run(s):
     from props import C08
     sub = core.SubSession(s, lambda n: n.replace("C08.", "C18.filling."), lambda n: n.startswith("C08.relations_equal_invariants["))
     sub.__dict__["relations_only"] = True
-    C08.run(sub)
+    sub.run(C08)
     s.min_obligations = 4
 
 
